@@ -221,6 +221,23 @@ class Exec:
         self.solver_calls += 1
         return s.check() == z3.unsat
 
+    def concretize(self, t):
+        """python int if the path condition forces the integer term t to one value, else None"""
+        t = conc(t)
+        if isinstance(t, int):
+            return t
+        t = z3.simplify(tonum(t))
+        if z3.is_int_value(t):
+            return t.as_long()
+        s = self._solver()
+        self.solver_calls += 1
+        if s.check() != z3.sat:
+            return None
+        v = s.model().eval(t, model_completion=True)
+        if not z3.is_int_value(v):
+            return None
+        return v.as_long() if self.entails(t == v) else None
+
     def assume(self, c):
         if isinstance(c, bool):
             if not c:
